@@ -464,7 +464,7 @@ func checkDiscovery(t testing.TB, rs []route, profiling bool) {
 
 // TestC14 enumerates route x method x credential class x transport and random variants.
 func TestC14(t *testing.T) {
-	col := ev.Get("C14", "routes", "routes and methods discovered with chi.Walk over the server's router (profiling on and off) x both slash variants x all HTTP methods x generated invalid credentials of 23 classes (none, empty, garbage, oversized, wrong scheme, wrong/prefix/empty secret, alg none with/without signature, HS384/HS512/RS256 headers with the right secret, expired, not yet valid, tampered payload/header, truncated/bit-flipped signature, 2/4/5 segments, signature of another payload) x 6 transports (Authorization in three spellings, cookie, query, header+cookie); oracle: registered (method,route) => exactly 401, any other => not 2xx; body reveals none of the planted ids/names/log and variable markers; runner state identical before and after; profiling off => /debug paths 404; positive controls with a valid token must pass; non-trivial = every probe of a registered route; distinct by (method, route, credential class, transport)")
+	col := ev.Get("C14", "routes", "routes and methods discovered with chi.Walk over the server's router (profiling on and off) x both slash variants and spellings of the path with dot segments, doubled slashes or the profiling prefix in front x all HTTP methods x generated invalid credentials of 23 classes (none, empty, garbage, oversized, wrong scheme, wrong/prefix/empty secret, alg none with/without signature, HS384/HS512/RS256 headers with the right secret, expired, not yet valid, tampered payload/header, truncated/bit-flipped signature, 2/4/5 segments, signature of another payload) x 6 transports (Authorization in three spellings, cookie, query, header+cookie); oracle: registered (method,route) => exactly 401, any other => not 2xx; body reveals none of the planted ids/names/log and variable markers; runner state identical before and after; profiling off => /debug paths 404; positive controls with a valid token must pass; non-trivial = every probe of a registered route; distinct by (method, route, credential class, transport)")
 	for _, profiling := range []bool{false, true} {
 		w := newWorld(t, profiling)
 		rs := walk(t, w.handler)
@@ -526,6 +526,12 @@ func TestC14(t *testing.T) {
 				} else {
 					path += "/"
 				}
+			}
+			// the same route spelled with dot segments, doubled slashes or through the profiling prefix
+			trick := rapid.SampledFrom([]string{"", "", "", "", "", "/debug/..", "/debug/pprof/../..", "/.", "/", "/x/..", "/debug/%2e%2e"}).Draw(rt, "pathTrick")
+			if trick != "" {
+				path = trick + path
+				slash = "trick:" + trick
 			}
 			c := genCred(rt)
 			if carriesValidToken(c.Token) {
